@@ -56,10 +56,11 @@ def marshal(tpm_type, buffer, root_path=None, command_code=None, **kwargs):
     # TODO bytes(buffer) consumes whole buffer... can we avoid this
     file = io.BytesIO(bytes(buffer))
     pkg_bytes = bytes_from_pcap_file(file)
-    yield from Binary.marshal(
+    result = yield from Binary.marshal(
         tpm_type=tpm_type,
         buffer=pkg_bytes,
         root_path=root_path,
         command_code=command_code,
         **kwargs,
     )
+    return result
